@@ -25,7 +25,7 @@ SPECS = os.path.join(VERIF, "specs")
 HARNESS = os.path.join(VERIF, "harness")
 WORK = os.environ.get("VERIF_WORK", os.path.join(VERIF, "work"))
 BUILD = os.path.join(VERIF, "build")
-EVIDENCE = os.path.join(VERIF, "evidence")
+EVIDENCE = os.environ.get("VERIF_EVIDENCE", os.path.join(VERIF, "evidence"))
 REPLAYS = os.path.join(EVIDENCE, "replay")
 NCPU = os.cpu_count() or 4
 
